@@ -3,6 +3,7 @@ package c14
 import (
 	"fmt"
 	"net"
+	"strconv"
 	"strings"
 	"sync"
 	"testing"
@@ -651,3 +652,138 @@ func TestHistory(t *testing.T)  { propSeq.Run(t) }
 func TestSchedule(t *testing.T) { propConc.Run(t) }
 
 func classify(c Case, fail string) string { return "" }
+
+// ---- the byte account stays exact -------------------------------------------------------------------------------------
+//
+// Four keys, every origin response exactly ten bytes long, MaxBytes 40: whatever happens, the cache never holds more
+// than it may, so it never has a reason to drop an entry. Plain requests, no-cache refreshes of a stored key and pairs of
+// requests that miss the same key at the same time (the first is parked in its origin handler while the second runs to
+// completion) follow each other. Oracle: once a key has been stored, every later plain request for it is a hit carrying
+// the body of the key's latest origin execution. An entry that is gone means the middleware counted bytes it does not
+// hold (a record left behind for a key that was stored again) and evicted to make room for them.
+
+type AccOp struct {
+	Key     int
+	NoCache bool `json:",omitempty"`
+	Pair    bool `json:",omitempty"` // two requests for the key at the same time, both missing
+}
+
+type AccCase struct {
+	Store string // memory | vk
+	Ops   []AccOp
+}
+
+func checkAcc(c AccCase) vk.Verdict {
+	var st *vk.Storage
+	cfg := cache.Config{MaxBytes: 40, Expiration: time.Hour}
+	if c.Store != "memory" {
+		st = vk.NewStorage()
+		cfg.Storage = st
+	}
+	var sched *vk.Sched
+	var mu sync.Mutex
+	serial := 0
+	latest := map[int]string{}
+	app := fiber.New()
+	app.Use(cache.New(cfg))
+	app.Get("/k/:key", func(ctx fiber.Ctx) error {
+		sched.Yield("origin<")
+		mu.Lock()
+		serial++
+		body := fmt.Sprintf("%s:%08d", ctx.Params("key"), serial) // 1 + 1 + 8 bytes
+		k, _ := strconv.Atoi(ctx.Params("key"))
+		latest[k] = body
+		mu.Unlock()
+		return ctx.SendString(body)
+	})
+	app.Handler()
+	do := func(op AccOp) *fasthttp.RequestCtx {
+		var hdr []string
+		if op.NoCache {
+			hdr = []string{"Cache-Control", "no-cache"}
+		}
+		return vk.Do(app, "GET", fmt.Sprintf("/k/%d", op.Key), hdr...)
+	}
+	stored := map[int]bool{}
+	v := vk.Verdict{Classes: []string{"store:" + c.Store}}
+	refreshed, paired := false, false
+	for i, op := range c.Ops {
+		if op.Pair {
+			if stored[op.Key] {
+				continue // (both must miss: only for a key that is not stored yet)
+			}
+			s := vk.NewSched()
+			sched = s
+			for g := 0; g < 2; g++ {
+				s.Spawn(g, func() { do(AccOp{Key: op.Key}) })
+			}
+			parked := false
+			res := s.Run(2, func(ready []int) int {
+				// task 0 runs until it is inside its origin handler, then task 1 runs to completion, then task 0
+				for _, e := range s.Trace {
+					if e == "0@origin<" {
+						parked = true
+					}
+				}
+				if parked && len(ready) == 2 {
+					return 1
+				}
+				return 0
+			})
+			sched = nil
+			if len(res.Panics) > 0 || res.Deadlock {
+				return vk.Failf("op %d %+v: panics %v deadlock %v", i, op, res.Panics, res.Deadlock)
+			}
+			stored[op.Key] = true
+			paired = true
+			continue
+		}
+		resp := do(op)
+		xc := string(resp.Response.Header.Peek("X-Cache"))
+		body := string(resp.Response.Body())
+		if !op.NoCache && stored[op.Key] {
+			if xc != "hit" {
+				held := 0
+				for k := range stored {
+					if stored[k] {
+						held += 10
+					}
+				}
+				return vk.Failf("op %d %+v: the key was stored before, never expired or invalidated, and at most %d of the 40 bytes allowed are held - yet the request was not served from the cache (X-Cache=%q, body %q); history %+v", i, op, held, xc, body, c.Ops[:i+1])
+			}
+			v.NonTrivial = v.NonTrivial || refreshed || paired
+		}
+		if body != latest[op.Key] {
+			return vk.Failf("op %d %+v: body %q, the key's latest origin response is %q (X-Cache=%q)", i, op, body, latest[op.Key], xc)
+		}
+		if op.NoCache && stored[op.Key] {
+			refreshed = true
+		}
+		stored[op.Key] = true
+		if st != nil {
+			if b := st.Bytes(func(k string) bool { return strings.HasSuffix(k, "_body") }); b > 40 {
+				return vk.Failf("op %d %+v: %d body bytes held, MaxBytes is 40", i, op, b)
+			}
+		}
+	}
+	if refreshed {
+		v.Classes = append(v.Classes, "no-cache-refresh-of-a-stored-key")
+	}
+	if paired {
+		v.Classes = append(v.Classes, "two-requests-missed-one-key-together")
+	}
+	return v
+}
+
+func genAcc(t *rapid.T) AccCase {
+	c := AccCase{Store: rapid.SampledFrom([]string{"memory", "vk"}).Draw(t, "store")}
+	n := rapid.IntRange(2, 16).Draw(t, "nops")
+	for i := 0; i < n; i++ {
+		c.Ops = append(c.Ops, AccOp{Key: rapid.IntRange(0, 3).Draw(t, "key"), NoCache: rapid.IntRange(0, 3).Draw(t, "nocache") == 0, Pair: rapid.IntRange(0, 7).Draw(t, "pair") == 0})
+	}
+	return c
+}
+
+var propAcc = vk.Register(&vk.Prop[AccCase]{Property: property, Name: "account", Gen: genAcc, Check: checkAcc, Quick: 1500, Thorough: 6000})
+
+func TestAccount(t *testing.T) { propAcc.Run(t) }
